@@ -64,6 +64,7 @@ CONSTANTS
     Fwd,        \* forwarding peers
     Ids,        \* message ids
     LocalIds,   \* ids that may also be published locally (content-based id function)
+    T2Ids,      \* ids of messages on the SECOND topic (the others are on the first); each topic may have its own validator
     Workers,    \* validation workers
     Calls,      \* local Publish calls
     Subs,       \* subscription names
@@ -76,13 +77,14 @@ CONSTANTS
     Bug
 
 VARIABLES
-    cfg,        \* [nv, inl, tmo, gthr, vthr, signed, subs, relay]  - fixed per behaviour
+    cfg,        \* [nv, inl, tmo, gthr, vthr, signed, subs, relay, tv1, tv2]  - fixed per behaviour; tv1 / tv2 = number of the
+                \* validator registered for topic 1 / 2 (0 = none; they come after the defaults), the others are default validators
     seen,       \* set of ids in the seen cache (no expiry here: see TimeCache.tla)
     sent,       \* sent[id] = copies that have arrived so far
-    valQ,       \* validation queue: sequence of [id, src]
+    valQ,       \* validation queue: sequence of [id, src, tv]  (tv = the topic validator captured by getValidators at Push)
     loopQ,      \* messages of the RPC being handled that passed shouldPush and await pushMsg: [id, src, late]
-    worker,     \* worker[w] = [st, id, src, k, res]
-    jobs,       \* set of asynchronous validation jobs [id, src, inl, stage, run, acc]
+    worker,     \* worker[w] = [st, id, src, k, res, tv]
+    jobs,       \* set of asynchronous validation jobs [id, src, inl, stage, run, acc, avals]
     gUsed,      \* tokens of the global validation throttle in use
     vUsed,      \* vUsed[v] = tokens of validator v's own throttle in use
     orphans,    \* validators still running for a job that already ended with Reject: [v, id]
@@ -113,12 +115,17 @@ RECURSIVE SortedSeq(_)
 SortedSeq(S) == IF S = {} THEN <<>>
                 ELSE LET m == CHOOSE x \in S : \A y \in S : x <= y IN <<m>> \o SortedSeq(S \ {m})
 
-Vals       == 1..cfg.nv
-InlineVals == SortedSeq(cfg.inl)
-AsyncSet   == Vals \ cfg.inl
+\* getValidators: all default validators plus the validator of the message's own topic
+Defaults    == (1..cfg.nv) \ {cfg.tv1, cfg.tv2}
+TvOf(id)    == IF id \in T2Ids THEN cfg.tv2 ELSE cfg.tv1
+ValsWith(t) == Defaults \cup ({t} \ {0})
+ValsOf(id)  == ValsWith(TvOf(id))
+InlineOf(t) == SortedSeq(ValsWith(t) \cap cfg.inl)       \* what a worker holding a request with topic validator t runs inline
+AsyncOf(t)  == ValsWith(t) \ cfg.inl
+AllOf(id)   == SortedSeq(ValsOf(id))                      \* a local publish runs all of them inline, in registration order
 Interested == cfg.subs # {} \/ cfg.relay
 
-Idle  == [st |-> "idle", id |-> "-", src |-> "-", k |-> 0, res |-> "A"]
+Idle  == [st |-> "idle", id |-> "-", src |-> "-", k |-> 0, res |-> "A", tv |-> 0]
 LIdle == [st |-> "idle", id |-> "-", k |-> 0, res |-> "A", ret |-> "-", dup |-> FALSE, sq |-> FALSE]
 
 -----------------------------------------------------------------------------
@@ -205,28 +212,39 @@ LoopArrive(p, batch) ==
     /\ UNCHANGED <<cfg, seen, valQ, worker, jobs, gUsed, vUsed, orphans, sendQ, local, delivered, forwarded,
                    valCalls, verdictOf, expect, finals, origin, qfull>>
 
+\* Seeded defect "sharedVals" (getValidators appends the topic validator onto the shared defaultVals slice, which has
+\* spare capacity): the validator list of every request that has not yet been split into inline / asynchronous
+\* validators - still in valQ, or with a worker that has not passed markSeen - has its last slot overwritten by the
+\* topic validator of the message pushed now.
+Clobber(q, t)  == IF Bug = "sharedVals" /\ t # 0 THEN [k \in DOMAIN q |-> IF q[k].tv # 0 THEN [q[k] EXCEPT !.tv = t] ELSE q[k]] ELSE q
+ClobberW(t)    == IF Bug = "sharedVals" /\ t # 0
+                    THEN [w \in Workers |-> IF worker[w].st \in {"sig", "mark"} /\ worker[w].tv # 0 THEN [worker[w] EXCEPT !.tv = t] ELSE worker[w]]
+                    ELSE worker
+
 \* pushMsg of the next message that passed shouldPush
 LoopPush ==
     /\ loopQ # <<>>
     /\ loopQ' = Tail(loopQ)
     /\ LET id == Head(loopQ).id
            p  == Head(loopQ).src IN
-       IF cfg.nv > 0 \/ cfg.signed
+       IF ValsOf(id) # {} \/ cfg.signed
          THEN \* validation.Push
               IF Len(valQ) < QCap
-                THEN /\ valQ' = Append(valQ, [id |-> id, src |-> p])
+                THEN /\ valQ' = Append(Clobber(valQ, TvOf(id)), [id |-> id, src |-> p, tv |-> TvOf(id)])
+                     /\ worker' = ClobberW(TvOf(id))
                      /\ UNCHANGED <<seen, outs, mons>>
                 ELSE /\ qfull' = [qfull EXCEPT ![id] = @ \cup {<<p, Head(loopQ).late>>}]   \* RejectValidationQueueFull: nobody is penalised
-                     /\ UNCHANGED <<seen, valQ, outs, valCalls, verdictOf, expect, finals, origin, copiesIn>>
+                     /\ valQ' = Clobber(valQ, TvOf(id)) /\ worker' = ClobberW(TvOf(id))          \* (getValidators ran before the queue was tried)
+                     /\ UNCHANGED <<seen, outs, valCalls, verdictOf, expect, finals, origin, copiesIn>>
        ELSE \* nothing to validate: pushMsg marks the id seen and publishes only if the mark was fresh
             IF id \notin seen \/ Bug = "pushIgnoreResult"
               THEN /\ seen' = IF Bug = "pushNoMark" THEN seen ELSE seen \cup {id}
                    /\ Deliver(id) /\ ScoreDeliver(id) /\ Counted(p, id)
                    /\ finals' = [finals EXCEPT ![id] = @ \cup {"A"}]
                    /\ origin' = [origin EXCEPT ![id] = "remote"]
-                   /\ UNCHANGED <<valQ, valCalls, verdictOf, expect, qfull>>
-              ELSE UNCHANGED <<seen, valQ, outs, mons>>        \* marked meanwhile (same RPC, local publish): dropped silently
-    /\ UNCHANGED <<cfg, sent, worker, jobs, gUsed, vUsed, orphans, sendQ, local>>
+                   /\ UNCHANGED <<valQ, worker, valCalls, verdictOf, expect, qfull>>
+              ELSE UNCHANGED <<seen, valQ, worker, outs, mons>>        \* marked meanwhile (same RPC, local publish): dropped silently
+    /\ UNCHANGED <<cfg, sent, jobs, gUsed, vUsed, orphans, sendQ, local>>
 
 \* event loop, outbound
 LoopPublish ==
@@ -244,7 +262,7 @@ LoopPublish ==
 WorkerTake(w) ==
     /\ worker[w].st = "idle" /\ valQ # <<>>
     /\ worker' = [worker EXCEPT ![w] = [st |-> IF cfg.signed THEN "sig" ELSE "mark", id |-> Head(valQ).id,
-                                        src |-> Head(valQ).src, k |-> 0, res |-> "A"]]
+                                        src |-> Head(valQ).src, k |-> 0, res |-> "A", tv |-> Head(valQ).tv]]
     /\ valQ' = Tail(valQ)
     /\ UNCHANGED <<cfg, loopQ, seen, sent, jobs, gUsed, vUsed, orphans, sendQ, local, outs, mons>>
 
@@ -254,7 +272,7 @@ WorkerSig(w) ==
     /\ worker' = [worker EXCEPT ![w].st = "mark"]
     /\ UNCHANGED <<cfg, loopQ, seen, sent, valQ, jobs, gUsed, vUsed, orphans, sendQ, local, outs, mons>>
 
-AfterMark  == IF cfg.inl = {} THEN (IF Bug = "markSeenLate" THEN "latemark" ELSE "fin") ELSE "inline"
+AfterMark(w) == IF InlineOf(worker[w].tv) = <<>> THEN (IF Bug = "markSeenLate" THEN "latemark" ELSE "fin") ELSE "inline"
 AfterInl   == IF Bug = "markSeenLate" THEN "latemark" ELSE "fin"
 
 \* the atomic Add to the seen cache; with the seeded defect it happens only after the inline validators
@@ -272,9 +290,9 @@ MarkOrDup(w, nextSt) ==
 WorkerMarkSeen(w) ==
     /\ worker[w].st = "mark"
     /\ IF Bug = "markSeenLate"
-         THEN /\ worker' = [worker EXCEPT ![w].st = AfterMark, ![w].k = 1]
+         THEN /\ worker' = [worker EXCEPT ![w].st = AfterMark(w), ![w].k = 1]
               /\ UNCHANGED <<seen, origin, copiesIn, drec, penalised>>
-         ELSE MarkOrDup(w, AfterMark)
+         ELSE MarkOrDup(w, AfterMark(w))
     /\ UNCHANGED <<cfg, loopQ, sent, valQ, jobs, gUsed, vUsed, orphans, sendQ, local, delivered, forwarded,
                    valCalls, verdictOf, expect, finals, qfull>>
 
@@ -293,11 +311,11 @@ Consulted(v, id, vd) ==
 WorkerInline(w, vd) ==
     /\ worker[w].st = "inline"
     /\ LET x == worker[w]
-           v == InlineVals[x.k]
+           v == InlineOf(x.tv)[x.k]
            r == ImplMap(vd) IN
          /\ Consulted(v, x.id, vd)
          /\ worker' = [worker EXCEPT ![w].res = IF r = "R" THEN "R" ELSE IF r = "I" THEN "I" ELSE @,
-                                     ![w].st  = IF r = "R" \/ x.k = Len(InlineVals) THEN AfterInl ELSE "inline",
+                                     ![w].st  = IF r = "R" \/ x.k = Len(InlineOf(x.tv)) THEN AfterInl ELSE "inline",
                                      ![w].k   = @ + 1]
     /\ UNCHANGED <<cfg, loopQ, seen, sent, valQ, jobs, gUsed, vUsed, orphans, sendQ, local, outs, finals, origin, copiesIn, qfull>>
 
@@ -310,10 +328,10 @@ WorkerFinish(w) ==
          /\ IF x.res = "R"
               THEN /\ ScoreReject(x.src, x.id, "failed") /\ Final(x.id, "R")
                    /\ UNCHANGED <<jobs, gUsed, sendQ, expect>>
-            ELSE IF AsyncSet # {}
+            ELSE IF AsyncOf(x.tv) # {}
               THEN IF gUsed < cfg.gthr
                      THEN /\ gUsed' = gUsed + 1
-                          /\ jobs' = jobs \cup {[id |-> x.id, src |-> x.src, inl |-> x.res, stage |-> "new", run |-> {}, acc |-> "A"]}
+                          /\ jobs' = jobs \cup {[id |-> x.id, src |-> x.src, inl |-> x.res, stage |-> "new", run |-> {}, acc |-> "A", avals |-> AsyncOf(x.tv)]}
                           /\ ScoreNop /\ UNCHANGED <<sendQ, finals, expect>>
                      ELSE /\ ScoreReject(x.src, x.id, "throttled") /\ Final(x.id, "T")
                           /\ expect' = [expect EXCEPT ![x.id] = Max2(@, "T")]
@@ -330,8 +348,8 @@ WorkerFinish(w) ==
 
 AsyncStart(j) ==
     /\ j \in jobs /\ j.stage = "new"
-    /\ LET free == {v \in AsyncSet : vUsed[v] < cfg.vthr}
-           thr  == AsyncSet \ free IN
+    /\ LET free == {v \in j.avals : vUsed[v] < cfg.vthr}
+           thr  == j.avals \ free IN
          /\ vUsed' = [v \in 1..NVmax |-> IF v \in free THEN vUsed[v] + 1 ELSE vUsed[v]]
          /\ valCalls' = [v \in 1..NVmax |-> IF v \in free THEN [valCalls[v] EXCEPT ![j.id] = Cap3(@ + 1)] ELSE valCalls[v]]
          /\ expect' = IF thr # {} THEN [expect EXCEPT ![j.id] = Max2(@, "T")] ELSE expect
@@ -398,7 +416,7 @@ LocalMarkSeen(c) ==
               /\ UNCHANGED <<seen, origin>>
          ELSE /\ seen' = seen \cup {id}
               /\ origin' = [origin EXCEPT ![id] = "local"]
-              /\ local' = [local EXCEPT ![c].st = IF cfg.nv = 0 THEN "fin" ELSE "inline", ![c].k = 1]
+              /\ local' = [local EXCEPT ![c].st = IF ValsOf(id) = {} THEN "fin" ELSE "inline", ![c].k = 1]
     /\ UNCHANGED <<cfg, loopQ, sent, valQ, worker, jobs, gUsed, vUsed, orphans, sendQ, outs,
                    valCalls, verdictOf, expect, finals, copiesIn, qfull>>
 
@@ -407,9 +425,9 @@ LocalInline(c, vd) ==
     /\ local[c].st = "inline"
     /\ LET x == local[c]
            r == ImplMap(vd) IN
-         /\ Consulted(x.k, x.id, vd)
+         /\ Consulted(AllOf(x.id)[x.k], x.id, vd)
          /\ local' = [local EXCEPT ![c].res = IF r = "R" THEN "R" ELSE IF r = "I" THEN "I" ELSE @,
-                                   ![c].st  = IF r = "R" \/ x.k = cfg.nv THEN "fin" ELSE "inline",
+                                   ![c].st  = IF r = "R" \/ x.k = Len(AllOf(x.id)) THEN "fin" ELSE "inline",
                                    ![c].k   = @ + 1]
     /\ UNCHANGED <<cfg, loopQ, seen, sent, valQ, worker, jobs, gUsed, vUsed, orphans, sendQ, outs, finals, origin, copiesIn, qfull>>
 
@@ -469,7 +487,10 @@ P_C02_LocalDup     == \A c \in Calls : local[c].dup => local[c].ret = "nil" /\ ~
 Out(i) == forwarded[i] > 0 \/ \E s \in Subs : delivered[s][i] > 0
 
 \* delivered / forwarded only if every applicable validator was consulted and said Accept
-P_C04_OnlyIfAllAccept == \A i \in Ids : Out(i) => \A v \in Vals : verdictOf[v][i] = "A"
+P_C04_OnlyIfAllAccept == \A i \in Ids : Out(i) => \A v \in ValsOf(i) : verdictOf[v][i] = "A"
+
+\* a message is judged by the default validators and the validator of ITS OWN topic, and by nobody else
+P_C04_Applicable == \A i \in Ids, v \in 1..NVmax : valCalls[v][i] > 0 => v \in ValsOf(i)
 
 \* the outcome the node decided is the one the verdicts prescribe
 P_C04_Outcome == \A i \in Ids : finals[i] \subseteq {expect[i]}
